@@ -385,19 +385,39 @@ def _ops():
         img_args(sc, j)[0]))
     ops['image'] += (img_ok,)
 
+    def foa_triples(sc):
+        """All (variable, low index, high index) whose level precondition holds in the
+        STARTING order (the caller cannot know about an internal reordering)."""
+        out = []
+        for v in sc.names:
+            lv = sc.raw.vars[v]
+            for a in range(len(sc.h)):
+                la = sc.raw.succ(O.node_of(sc.h[a]))[0]
+                if not lv < la:
+                    continue
+                for b in range(len(sc.h)):
+                    if a != b and lv < sc.raw.succ(O.node_of(sc.h[b]))[0]:
+                        out.append((v, a, b))
+        return out
+
+    def foa_pick(sc, i, j):
+        ts = foa_triples(sc)
+        return ts[(i * 12 + j) % len(ts)] if ts else None
+
     def foa_ok(sc, i, j):
-        lv = sc.order[sc.names[j % 4]]
-        a, b = H(sc, i), H(sc, i + j + 1)
-        la = sc.raw.succ(O.node_of(a))[0]
-        lb = sc.raw.succ(O.node_of(b))[0]
-        return lv < la and lv < lb
+        return foa_pick(sc, i, j) is not None
 
     def foa_call(sc, i, j):
+        v, a, b = foa_pick(sc, i, j)
+        sc.last_foa = (v, a, b)     # chosen in the order the caller sees before the call
         if sc.auto:
-            return sc.bdd.find_or_add(sc.names[j % 4], H(sc, i), H(sc, i + j + 1))
-        return sc.raw.find_or_add(sc.order[sc.names[j % 4]], H(sc, i), H(sc, i + j + 1))
-    reg('find_or_add', foa_call, lambda U, sc, i, j: U.ite(
-        U.var(sc.names[j % 4]), M(sc, i + j + 1), M(sc, i)))
+            return sc.bdd.find_or_add(v, sc.h[a], sc.h[b])
+        return sc.raw.find_or_add(sc.raw.vars[v], sc.h[a], sc.h[b])
+
+    def foa_want(U, sc, i, j):
+        v, a, b = sc.last_foa
+        return U.ite(U.var(v), sc.masks[b], sc.masks[a])
+    reg('find_or_add', foa_call, foa_want)
     ops['find_or_add'] += (foa_ok,)
     return ops
 
